@@ -395,6 +395,14 @@ impl<'a, T: Evaluate> PiecewiseEvaluator<'a, T> {
     // instances for references.
     #[inline]
     pub fn evaluate(&mut self, x: f64) -> f64 {
+        // NaN compares false with everything: it selects the last segment,
+        // exactly like `Piecewise::evaluate`. Do not record it as the last
+        // argument, otherwise every later comparison against it fails and
+        // the cursor gets stuck at the front segment.
+        if x.is_nan() {
+            return self.last.evaluate(x);
+        }
+
         // If the new evaluation is for value higher than previous
         // one, we want to start searching for the segment from the
         // last segment we have recorded: we already know there is no
